@@ -156,6 +156,8 @@ func FocusParams(t *rapid.T, seedTag, shape string, excl func(string) bool) sim.
 		}
 		p.ExtraVals = u.Range(2, 3, "extra")
 	}
+	// a chain restarted from an exported state carries the delegation store's snapshot next to the staking list
+	p.CarryStakeSnapshot = u.N(4, "carrystake") == 0
 	p.Evidence.BlockVotesDiff = int64(u.Range(2, 5, "bvd"))
 	p.Evidence.MinVotesRequired = int64(u.Range(1, int(p.Evidence.BlockVotesDiff), "mvr"))
 	if u.Range(0, 2, "lenientvotes") != 0 {
